@@ -19,7 +19,7 @@ import (
 )
 
 type event struct {
-	K string `json:"k"` // genuine | replay | flip | forged | flip-header
+	K string `json:"k"` // genuine | genuine-empty | replay | flip | forged | flip-header
 	X int    `json:"x"` // source address index
 }
 
@@ -80,7 +80,7 @@ func run(std *fix.Std, sc scenario, st *stats) (problem string, engineErr error)
 	var addrs []*net.UDPAddr
 	var target *net.UDPAddr // the endpoint under observation
 	var write func() error
-	var pool [][]byte
+	var pool, poolE [][]byte // genuine packets not yet delivered: with a payload / with an empty payload
 	const N = 6
 	if sc.ServerView {
 		addrs = []*net.UDPAddr{home, simnet.Addr("10.0.0.3", 4100), simnet.Addr("10.7.7.7", 4200)}
@@ -92,6 +92,12 @@ func run(std *fix.Std, sc scenario, st *stats) (problem string, engineErr error)
 			}
 			pool = append(pool, w.Net.Pop().Data)
 		}
+		for i := 0; i < N; i++ {
+			if err := cl.C.WriteMsg([]byte{}); err != nil {
+				return "", err
+			}
+			poolE = append(poolE, w.Net.Pop().Data)
+		}
 	} else {
 		addrs = []*net.UDPAddr{std.ServerAdr, simnet.Addr("10.0.0.9", 78), simnet.Addr("10.7.7.7", 4200)}
 		target = home
@@ -102,9 +108,16 @@ func run(std *fix.Std, sc scenario, st *stats) (problem string, engineErr error)
 			}
 			pool = append(pool, w.Net.Pop().Data)
 		}
+		for i := 0; i < N; i++ {
+			if err := h.WriteMsg([]byte{}); err != nil {
+				return "", err
+			}
+			poolE = append(poolE, w.Net.Pop().Data)
+		}
 	}
 	ref := addrs[0] // after the handshake the peer is where the handshake came from
-	next, lastUsed := 0, -1
+	next, nextE := 0, 0
+	var lastData []byte
 	observe := func(after string) string {
 		if err := write(); err != nil {
 			return fmt.Sprintf("after %s: local write failed: %v", after, err)
@@ -130,14 +143,23 @@ func run(std *fix.Std, sc scenario, st *stats) (problem string, engineErr error)
 				return "", fmt.Errorf("pool exhausted")
 			}
 			data = pool[next]
-			lastUsed = next
+			lastData = data
 			next++
 			ref = src // authentic and fresh: the address moves (or stays)
+		case "genuine-empty":
+			// a genuine, fresh packet whose payload is empty (a zero-length message)
+			if nextE >= len(poolE) {
+				return "", fmt.Errorf("pool exhausted")
+			}
+			data = poolE[nextE]
+			lastData = data
+			nextE++
+			ref = src
 		case "replay":
-			if lastUsed < 0 {
+			if lastData == nil {
 				return "", nil // nothing to replay yet: sequence not applicable
 			}
-			data = pool[lastUsed]
+			data = lastData
 		case "flip":
 			data = append([]byte{}, pool[next]...) // corrupted copy of a packet not yet delivered
 			data[len(data)-1] ^= 0x01
@@ -169,7 +191,7 @@ func run(std *fix.Std, sc scenario, st *stats) (problem string, engineErr error)
 		}
 		st.mu.Lock()
 		st.trans++
-		st.states[fmt.Sprintf("%v|%v|ref=%d|consumed=%d", sc.ServerView, sc.QueueFull, e.X*0+indexOf(addrs, ref), next)] = true
+		st.states[fmt.Sprintf("%v|%v|ref=%d|consumed=%d", sc.ServerView, sc.QueueFull, e.X*0+indexOf(addrs, ref), next+nextE)] = true
 		st.mu.Unlock()
 		if p := observe(fmt.Sprintf("event %d %v", i, e)); p != "" {
 			return p, nil
@@ -225,11 +247,11 @@ func main() {
 	}
 	var alpha []event
 	for x := 0; x < 3; x++ {
-		for _, k := range []string{"genuine", "replay", "flip", "flip-header", "forged"} {
+		for _, k := range []string{"genuine", "genuine-empty", "replay", "flip", "flip-header", "forged"} {
 			alpha = append(alpha, event{k, x})
 		}
 	}
-	r.SetRule(fmt.Sprintf("every sequence of <=%d events over %d (genuine fresh / replayed genuine / tag-flipped / counter-flipped / forged-with-valid-public-header packet, each from the peer's address or one of two others) on a real established session, server view and client view, reader draining vs receive queue of 2 never drained; after every event a local write is made and its destination compared with the reference address. States = distinct (view, queue mode, reference address, genuine packets consumed) reached; transitions = events executed on the implementation (no state merging: every trace is an implementation trace).", bound, len(alpha)))
+	r.SetRule(fmt.Sprintf("every sequence of <=%d events over %d (genuine fresh / genuine fresh with an empty payload / replayed genuine / tag-flipped / counter-flipped / forged-with-valid-public-header packet, each from the peer's address or one of two others) on a real established session, server view and client view, reader draining vs receive queue of 2 never drained; after every event a local write is made and its destination compared with the reference address. States = distinct (view, queue mode, reference address, genuine packets consumed) reached; transitions = events executed on the implementation (no state merging: every trace is an implementation trace).", bound, len(alpha)))
 	var scs []scenario
 	var rec func(cur []event)
 	rec = func(cur []event) {
